@@ -24,7 +24,7 @@ LOCALS = ["1$", "2$", "10$", "7"]
 
 def plan(tier, seed):
     n = 16 if tier == "quick" else 48
-    total = 3000 if tier == "quick" else 80000
+    total = 3000 if tier == "quick" else 300000
     return [{"part": i, "parts": n, "seed": seed, "tier": tier, "count": total // n} for i in range(n)]
 
 
